@@ -27,10 +27,16 @@ ENTRY = dict(
             "kinds the device did not answer during set-up queue nothing": "theorem (queued_iff, queued_only_if) + table (setup_kinds_are_request_kinds)",
             "over all announcement sequences": "theorem (exact_refreshes: every position of every history; the per-announcement theorems hold in every state)",
             "a code twice in one announcement": "theorem (dictOf_keys_nodup, dictOf_lookup: first position, last version)",
-            "announcements via sensor data and via regulator data reach the same handler": "correspondence (both carriers generated)",
+            "announcements via sensor data and via regulator data reach the same handler": "correspondence (both carriers generated; the frame object untouched, inspected before handling (repr / data / message / len / == / bytes — the lazily cached Frame.data), read from bytes by a real FrameReader, with DEBUG logging of the pyplumio loggers)",
+            "whatever unrelated subscribers do": "correspondence (client subscribers on sensor names / frame_versions / sensors / regdata that raise, suspend briefly / over the next message / to the end, unsubscribe themselves, once-subscribers that raise; executor jobs of Request.create completing at once or only when the loop is idle, so that the handler is suspended while its sibling dispatches run); the oracle is the unchanged model and judge",
+            "the new version is recorded (public readers)": "correspondence (has_frame_version(kind, version), has_frame_version(kind), supports_frame_type(kind) read after every event against the record the statement prescribes)",
             "known response/message code in an announcement": "outside the statement's quantifier; modelled exactly (callback raises, rest dropped) and tied by correspondence",
             "overlapping announcement dispatches (outside the statement's quantifier)": "theorem about the overlap machine (sequential_exact: no overlap = the sequential model; requests_le_tasks / overlap_at_most_doubles: at most one request per announcement in flight, one record update, final record = announced version; doubled_request_reachable) + correspondence with a HELD executor reproducing the doubled request on the implementation — recorded as an observation, not a violation",
         },
+        public_routes=(
+            "route audit: update_frame_versions (the subscribed callback) — driven through handle_frame with both carriers, through FrameReader -> handle_frame, and with "
+            "client subscribers around it; supports_frame_type — driven (every subset of set-up kinds via frame_errors, read back for every known code); has_frame_version — "
+            "driven with and without a version after every announcement; PhysicalDevice.request (failed) — driven; overlapping announcements — overlap machine (outside the statement)."),
         assumptions=COMMON_ASSUME + [
             "one announcement frame is handled to quiescence before the next arrives (histories, not overlapping dispatches)",
             "`frame_errors` holds FrameType members of request kinds (what async_setup dispatches)",
